@@ -676,6 +676,7 @@ def m_C06(v):
     """gated endpoints are accepted only in their phase; sub-steps in order; stage never decreases"""
     out = bad_views(v, "C06")
     last_stage = None
+    steps_done = None
     for i, k in enumerate(v.kind):
         if k == "deploy" or v.ops[i][0].startswith("restore"):
             last_stage = None
@@ -696,6 +697,22 @@ def m_C06(v):
             has_extra = v.variant not in ("base", "locked")     # the plain variants deploy with the flag set
             if (fl[2] == "1" and fl[1] != "1") or (has_extra and fl[3] == "1" and fl[2] != "1"):
                 out.append((i, f"C06 selection flags {fl} out of order"))
+        # model-independent completion tracking: the answers of the selection endpoints themselves
+        if k == "deploy" or v.ops[i][0].startswith("restore"):
+            steps_done = set() if k == "deploy" else None
+        if k == "call" and v.committed(i) and steps_done is not None and v.R[i].get("ret") == "[0]" \
+                and v.call[i]["ep"] in ("filter", "select", "distribute", "selectNft", "secondary"):
+            steps_done.add(v.call[i]["ep"])
+        if k == "call" and v.call[i]["ep"] == "claim" and v.R[i]["st"] == "user" and steps_done is not None:
+            need = {"filter", "select"} | ({"nft": {"selectNft"}, "nftGuar": {"secondary"}}.get(v.variant, {"distribute"} if v.variant in gen.GUAR else set()))
+            pd0 = v.prev_dump(i)
+            msg = v.R[i].get("msg", "")
+            if pd0 and need <= steps_done and "period" in msg.lower():
+                g0, a0 = pd0
+                claim_round = int(g0["cfg"].split(",")[2])
+                d0 = a0.get(v.call[i]["caller"])
+                if v.call[i]["round"] >= claim_round and d0 and d0.get("range", "none") != "none" and d0.get("cl") == "0":
+                    out.append((i, f"C06 claim refused ({msg[:40]}) although every selection step reported completion and the claim round {claim_round} is reached"))
         if not v.accepted(i):
             continue
         c = v.call[i]
